@@ -70,9 +70,26 @@ type elInterp struct {
 
 // a function literal together with the frame it was written in
 type elClosure struct {
-	lit *ast.FuncLit
-	fd  *ast.FuncDecl
-	env map[string]*elClosure
+	lit    *ast.FuncLit
+	fd     *ast.FuncDecl
+	env    map[string]*elClosure
+	method string // not a literal but a method expression / method value of the use-case data type: (*T).M, data.M
+}
+
+// elMethodValue: the expression is a method expression or method value naming a helper of the use-case data type
+// ((*model.NodeManagementUseCaseDataType).M, model.NodeManagementUseCaseDataType.M, data.M — not a call)
+func (in *elInterp) elMethodValue(e ast.Expr) string {
+	for {
+		p, ok := e.(*ast.ParenExpr)
+		if !ok {
+			break
+		}
+		e = p.X
+	}
+	if s, ok := e.(*ast.SelectorExpr); ok && in.modelUC[s.Sel.Name] {
+		return s.Sel.Name
+	}
+	return ""
 }
 
 func elParamNames(fd *ast.FuncDecl) []string {
@@ -260,6 +277,10 @@ func (in *elInterp) walkStmt(st ast.Stmt, fd *ast.FuncDecl, depth int, defers *[
 			if id, ok := l.(*ast.Ident); ok && i < len(x.Rhs) && in.env != nil {
 				if fl, ok := x.Rhs[i].(*ast.FuncLit); ok {
 					in.env[id.Name] = &elClosure{lit: fl, fd: fd, env: in.env}
+				} else if _, isCall := x.Rhs[i].(*ast.CallExpr); !isCall {
+					if m := in.elMethodValue(x.Rhs[i]); m != "" {
+						in.env[id.Name] = &elClosure{method: m}
+					}
 				}
 			}
 		}
@@ -375,6 +396,10 @@ func (in *elInterp) call(c *ast.CallExpr, fd *ast.FuncDecl, depth int) {
 		}
 	}
 	if id, ok := c.Fun.(*ast.Ident); ok {
+		if cl := in.env[id.Name]; cl != nil && cl.method != "" {
+			in.emit("modify", cl.method, depth)
+			return
+		}
 		if cl := in.env[id.Name]; cl != nil && depth < 4 {
 			// a call of a bound function literal: interpret its body here, in the frame it was written in
 			in.emit("call", name, depth)
@@ -457,6 +482,10 @@ func (in *elInterp) call(c *ast.CallExpr, fd *ast.FuncDecl, depth int) {
 				if cl := in.env[x.Name]; cl != nil {
 					newEnv[params[i]] = cl
 				}
+			default:
+				if m := in.elMethodValue(a); m != "" {
+					newEnv[params[i]] = &elClosure{method: m}
+				}
 			}
 		}
 		saved := in.env
@@ -505,11 +534,27 @@ func genEntityLocal(outDir string) (string, error) {
 				}
 				for _, sp := range x.Specs {
 					vs := sp.(*ast.ValueSpec)
-					if vs.Type == nil {
-						continue
-					}
-					if t := exprString(vs.Type); t == "sync.Mutex" || t == "sync.RWMutex" {
-						for _, nm := range vs.Names {
+					for i, nm := range vs.Names {
+						var t ast.Expr = vs.Type
+						if t == nil && i < len(vs.Values) {
+							// var m = sync.Mutex{} / &sync.Mutex{} / new(sync.Mutex)
+							v := vs.Values[i]
+							if u, ok := v.(*ast.UnaryExpr); ok && u.Op == token.AND {
+								v = u.X
+							}
+							switch y := v.(type) {
+							case *ast.CompositeLit:
+								t = y.Type
+							case *ast.CallExpr:
+								if exprString(y.Fun) == "new" && len(y.Args) == 1 {
+									t = y.Args[0]
+								}
+							}
+						}
+						if t == nil {
+							continue
+						}
+						if ts := strings.TrimPrefix(exprString(t), "*"); ts == "sync.Mutex" || ts == "sync.RWMutex" {
 							pkgMutex[nm.Name] = true
 						}
 					}
